@@ -1,5 +1,51 @@
 import BigtreeModel.Proto
-/-! Driver handler for property C17: one case (token list) in, one canonical line out. -/
+import BigtreeModel.Dag
+import BigtreeModel.DagProto
+/-! Driver handler for property C17 (DAG exports and constructors).
+* `op=rt fmt=<list|dict|rows> sel=<all|pick:…> n= E= A= s=` → `X=<export> ret=… N= E= A=`
+  (export in the exporter's order, then what the matching constructor builds from it);
+* `op=cons fmt=list R=<edges>` / `fmt=dict D=<entries>` / `fmt=rows W=<rows>` → `ret=… N= E= A=`
+  or `rej:TreeError` / `rej:ValueError`. -/
 namespace Drv.C17
-def handle (_toks : List String) : String := "unimplemented"
+open Proto Dag DagProto
+
+def handle (toks : List String) : String :=
+  let r : Option String := do
+    let op ← kv toks "op"
+    let fmt ← kv toks "fmt"
+    if op == "rt" then
+      let n ← (← kv toks "n").toNat?
+      let es ← parseEdges (← kv toks "E")
+      let s ← (← kv toks "s").toNat?
+      let sel ← parseSel (← kv toks "sel")
+      let na ← parseNodeAttrs (← kv toks "A")
+      if s ≥ n then none
+      if es.any (fun e => e.1 ≥ n || e.2 ≥ n) then none
+      let g := ofEdges n es (attrFun na)
+      match fmt with
+      | "list" =>
+        let x := g.dagToList s
+        pure ("X=" ++ showEdges x ++ " " ++ showResult (listToDag x))
+      | "dict" =>
+        match g.dagToDict sel s with
+        | none => pure "X=KeyError"
+        | some x => pure ("X=" ++ joinSemi (x.map showEntry) ++ " " ++ showResult (dictToDag x))
+      | "rows" =>
+        let x := g.dagToRows sel s
+        pure ("X=" ++ joinSemi (x.map showRow) ++ " " ++ showResult (rowsToDag x))
+      | _ => none
+    else if op == "cons" then
+      match fmt with
+      | "list" => do
+        let rel ← parseEdges (← kv toks "R")
+        pure (showResult (listToDag rel))
+      | "dict" => do
+        let d ← parseSemi parseEntry (← kv toks "D")
+        pure (showResult (dictToDag d))
+      | "rows" => do
+        let w ← parseSemi parseRow (← kv toks "W")
+        pure (showResult (rowsToDag w))
+      | _ => none
+    else none
+  r.getD "bad-op"
 end Drv.C17
